@@ -311,15 +311,23 @@ Fixpoint max_level (b : gblock) : nat :=
   end.
 Definition max_levels (bs : list gblock) : nat := fold_right (fun b n => Nat.max (max_level b) n) 0 bs.
 
-(* a tight item in which a rule or a table follows the item text (read back as a setext heading /
-   as continuation text): what section -> list writes for a section whose body has such a block
+(* a tight item (blocks written without blank lines between them) in which a rule or a table
+   follows the item text (read back as a setext heading / as continuation text) or two quotes
+   follow each other (read back as one quote): what section -> list writes for a section whose body has such a block
    and at most one paragraph *)
+Fixpoint adjacent_quotes (l : list gblock) : bool :=
+  match l with
+  | GQuote _ :: ((GQuote _ :: _) as r) => true
+  | _ :: r => adjacent_quotes r
+  | [] => false
+  end.
 Fixpoint g_calm (b : gblock) {struct b} : bool :=
   let fix go (l : list gblock) : bool := match l with [] => true | x :: r => g_calm x && go r end in
   let fix goi (tight : bool) (l : list (list gblock)) : bool :=
     match l with
     | [] => true
-    | it :: r => negb (tight && existsb (fun x => match x with GRule | GTable _ _ _ => true | _ => false end) it)
+    | it :: r => negb (tight && (existsb (fun x => match x with GRule | GTable _ _ _ => true | _ => false end) it
+                                 || adjacent_quotes it))
                  && go it && goi tight r
     end in
   match b with
